@@ -20,7 +20,7 @@ RULE = ("case = (N paths with unique scripted terminal values, product in {Forwa
         "component, control-variate price = mean(Y - b*(X - price_X)) with b* the sample regression coefficient, = raw mean when "
         "price_X is the sample mean of X, adjusted variance <= raw variance; non-trivial = N >= 3 paths with non-constant payoff; "
         "distinct = distinct seed")
-ASSUMPTIONS = ["controls with a sample variance below 1e-8, or collinear in the sample (condition number of their covariance matrix above 1e10), are "
+ASSUMPTIONS = ["controls whose sample variance is below 1e-9 x their mean square, or collinear in the sample (condition number of their covariance matrix above 1e10), are "
                "not judged (the code's own degenerate-control guard, 1e-12 on the variance, is far below); uncorrelated controls are judged",
                "the scripted process stands for any Process; runs with 2..4 worker processes draw the terminal values in the workers and log them "
                "to an O_APPEND file, the multiset of logged values is the reference (which worker simulates which path is not prescribed)"]
@@ -39,7 +39,7 @@ def gen_cases(tier, seed):
         cases.append({"seed": int(rng.integers(2**31)), "N": int(rng.choice([2, 3, 5, 17, 64, 200, 513])),
                       "product": ["forward", "call", "put", "call-vector", "onthefly"][i % 5], "ncv": int(i % 4),
                       "cv_prices": ["scalar", "vector"][(i // 4) % 2], "spot_stats": bool((i // 8) % 2),
-                      "cv_notional": float([1.0, 1.0, 1e-2, 1.0, 250.0, 1e-4, 1.0, 2e-5, 1.0][(i // 4) % 9])})
+                      "cv_notional": float([1.0, 1.0, 1e-2, 1.0, 250.0, 1e-4, 1.0, 2e-5, 1.0, 1e-7, 1e-9][(i // 4) % 11])})
         if i % 12 == 0:
             # samples concentrated around a large value (relative spread 1e-6 .. 1e-8): the error estimate must not lose them to cancellation
             cases[-1]["concentration"] = float(rng.choice([1e-6, 1e-8]))
@@ -250,7 +250,7 @@ def run_case(case, R):
     prices = None
     if cvs:
         X = np.stack([df * np.asarray(f(s), dtype=float).reshape(N, dim) for f in cv_funs], axis=1)   # (N, ncv, dim)
-        true_prices = X.mean(axis=0) + rng.normal(0, 0.05, size=X.shape[1:]) * (np.abs(X.mean(axis=0)) + 0.1)
+        true_prices = X.mean(axis=0) + rng.normal(0, 0.05, size=X.shape[1:]) * (np.abs(X.mean(axis=0)) + 0.1 * cv_notional)
         if case["cv_prices"] == "scalar" and dim == 1:
             prices = [float(true_prices[j, 0]) for j in range(len(cvs))]
         else:
@@ -314,7 +314,8 @@ def run_case(case, R):
             Sx = np.atleast_2d(S[:-1, :-1])
             Sxy = S[:-1, -1]
             # degenerate = a control without sample variance, or controls that are collinear in the sample (uncorrelated controls are not)
-            cond = float(np.linalg.cond(Sx)) if np.min(np.diag(Sx)) >= 1e-8 else math.inf
+            # (relative to the size of the control: a control in tiny cash units is a control like any other)
+            cond = float(np.linalg.cond(Sx)) if np.all(np.diag(Sx) > 1e-9 * np.mean(Xc**2, axis=0)) else math.inf
             if cond > 1e10 or N < len(cvs) + 2:
                 R.skip("degenerate-controls")
                 continue
@@ -325,7 +326,7 @@ def run_case(case, R):
             # rounding of the regression: eps * cond(Sigma_x) on the size of the adjustment b * (X - price)
             scale = abs(series.mean()) + np.std(Yc) + 1e-12 + 1e-7 * cond * float(np.sum(np.abs(b) * np.max(np.abs(Xc - pX[None, :]), axis=0)))
             if not (abs(pr[c] - series.mean()) <= 1e-8 * scale):
-                kind = f"{case['cv_prices']}-prices-{len(cvs)}-controls" + ("-uncorrelated-controls" if np.min(np.abs(Sx)) < 1e-10 else "")
+                kind = f"{case['cv_prices']}-prices-{len(cvs)}-controls" + ("-uncorrelated-controls" if np.min(np.abs(Sx / np.sqrt(np.outer(np.diag(Sx), np.diag(Sx))))) < 1e-10 else "") + ("-controls-in-tiny-units" if cv_notional < 1e-5 else "")
                 R.violation(f"cv-price-not-regression-estimator-{kind}", f"component {c}: price with {len(cvs)} control(s) = {pr[c]!r}, "
                             f"mean(Y - b*(X - price_X)) with the sample regression coefficient b* = {b.tolist()} is {series.mean()!r} "
                             f"(raw mean {Yc.mean()!r}, control prices {pX.tolist()})", wit)
@@ -334,7 +335,7 @@ def run_case(case, R):
                 R.violation("cv-variance-larger-than-raw", f"component {c}: variance of the adjusted series {np.var(adj[:, c])!r} > raw {np.var(Yc)!r}", wit)
         # second run: control prices = sample means of the controls -> the price must be the raw mean
         well_conditioned = all(np.linalg.cond(np.atleast_2d(np.cov(X[:, :, c].T, bias=True))) < 1e10 and
-                               np.min(np.diag(np.atleast_2d(np.cov(X[:, :, c].T, bias=True)))) >= 1e-8 for c in range(dim))
+                               np.all(np.diag(np.atleast_2d(np.cov(X[:, :, c].T, bias=True))) > 1e-9 * np.mean(X[:, :, c] ** 2, axis=0)) for c in range(dim))
         if not well_conditioned:
             R.skip("degenerate-controls")
             if N >= 3 and np.std(Y2[:, 0]) > 0:
